@@ -741,17 +741,21 @@ def c08(tier):
             T("graph", "VerifC08_BoundedWork", {"D": W(tier, 16, 40), "WA": 100000, "WB": 1000}),
             # printer: about 160*n on the unchanged tree; merge: about 340*n
             T("transformer", "VerifC08_PrinterWork", {"D": W(tier, 24, 48), "WA": 20000, "WB": 200}),
-            T("transformer", "VerifC08_MergeWork", {"D": W(tier, 12, 24), "WA": 50000, "WB": 200})]
+            T("transformer", "VerifC08_MergeWork", {"D": W(tier, 12, 24), "WA": 50000, "WB": 200}),
+            # listener: about 1700*n + 6000 on the unchanged tree
+            T("transformer", "VerifC08_ListenerWork", {"D": W(tier, 24, 40), "WA": 200000, "WB": 2000}, warmup="VerifWarmupParser")]
     out = engine_a_check("C08", tier, jobs, {"VerifC08_PrinterDegenerate": ["accepted", "rejected"], "VerifC08_ConditionsDegenerate": ["accepted", "rejected"], "VerifC15_Manifest": ["accepted", "rejected"],
                                              "VerifC16_SyntaxError": ["recorded"], "VerifC07_Merge": ["rejected"], "VerifC08_ListenerRecovery": ["walked"], "VerifC08_GraphDegenerate": ["accepted", "rejected"], "VerifC08_PlainGraphDegenerate": ["accepted"],
                                              "VerifC08_OddLines": ["declaration", "no-declaration"], "VerifC08_FreeLine": ["declaration", "no-declaration"],
-                                             "VerifC08_BoundedWork": ["weighted-accepted", "plain-accepted"], "VerifC08_PrinterWork": ["printed"], "VerifC08_MergeWork": ["merged", "rejected"]},
-                         ["arbitrary bytes through the ANTLR lexer/parser, protojson and yaml.v3 are outside (not encoded); the complexity claim is decided for the two graph builders, the printer and the module merger (behind its parser stub) only, on families of layered/nested models whose path count is exponential in the depth while their size is linear (instructions executed by the executor <= A + B*n*n: graphs 100000 + 1000*n*n for n relations, the unchanged tree needs about 1400*n; printer 20000 + 200*n*n for n rewrite nodes, unchanged about 160*n; merge 50000 + 200*n*n for n declarations, unchanged about 340*n); the lexer (form feeds) and parser are outside",
+                                             "VerifC08_BoundedWork": ["weighted-accepted", "plain-accepted"], "VerifC08_PrinterWork": ["printed"], "VerifC08_MergeWork": ["merged", "rejected"], "VerifC08_ListenerWork": ["walked"]},
+                         ["arbitrary bytes through the ANTLR lexer/parser, protojson and yaml.v3 are outside (not encoded); the complexity claim is decided for the two graph builders, the printer and the module merger (behind its parser stub) only, on families of layered/nested models whose path count is exponential in the depth while their size is linear (instructions executed by the executor <= A + B*n*n: graphs 100000 + 1000*n*n for n relations, the unchanged tree needs about 1400*n; printer 20000 + 200*n*n for n rewrite nodes, unchanged about 160*n; merge 50000 + 200*n*n for n declarations, unchanged about 340*n; listener walk over generated parse trees of nested expressions 200000 + 2000*n*n, unchanged about 1700*n); the lexer (form feeds) and parser are outside under the executor - natively the replay of the listener witnesses times the real ParseDSL",
                           "decided: no Go run-time panic on any explored path of the hand-written code (panic monitor)"], "",
                          bounds={"printer": "degenerate rewrite trees <= %d nodes (nil children, unset oneofs, operators without operands), nil metadata/restrictions/type definitions, 7 degenerate condition shapes" % W(tier, 4, 5),
                                  "fga.mod": "arbitrary yaml node kinds (stub)",
                                  "line lookups": "lines cut out of a declaration at any character, 5 indents, 4 blank runs, <= %d arbitrary characters behind; every line of length <= %d over {t,y,p,e,a,blank,tab}" % (W(tier, 1, 2), W(tier, 6, 8)),
-                                 "work": "graphs: 8 layered families (union/intersection/exclusion/tuple-to-userset diamonds, userset and tuple cycles), depth 1..%d; printer: 12 nestings (alternating operators, one operator throughout; nested operand first or second), depth 1..%d; merge: 1..%d module files, with and without a conflict per file" % (W(tier, 16, 40), W(tier, 24, 48), W(tier, 12, 24))})
+                                 "lexer": "every recursive lexer rule of the ATN (unit ambiguity, any word length)",
+                                 "work": "graphs: 8 layered families (union/intersection/exclusion/tuple-to-userset diamonds, userset and tuple cycles), depth 1..%d; printer: 12 nestings (alternating operators, one operator throughout; nested operand first or second), depth 1..%d; merge: 1..%d module files, with and without a conflict per file; listener: 6 nestings of parenthesised expressions, depth 1..%d, plus as many relations and conditions" % (W(tier, 16, 40), W(tier, 24, 48), W(tier, 12, 24), W(tier, 24, 40))})
+    lexer_work(out, "C08")
     out.finish()
 
 
@@ -927,6 +931,35 @@ def grammar_facts(out, pid):
     out.coverage["grammar_obligations"] = {"obligations": len(mine), "discharged": discharged, "names": [r["name"] for r in mine],
                                            "checker_cmd": "z3-new -in (RegLan emptiness of re.diff per inclusion, no bound on word length)",
                                            "on": "serialized ATN in pkg/go/gen/openfga_parser.go / openfga_lexer.go (state elimination per rule)", "stats": stats}
+
+
+def lexer_work(out, pid):
+    """Engine B + native timing: recursive lexer rules with ambiguous units (cubic lexing), see atnre/lexwork.py."""
+    from atnre import lexwork
+    known = load_known()
+    try:
+        results, stats = lexwork.run()
+    except Exception as e:  # noqa
+        import traceback
+        out.engine_errors.append("engine B (lexer work) failed: %r %s" % (e, traceback.format_exc()[-300:]))
+        return
+    for r in results:
+        label = "lexer-rule-%s-unit-ambiguity" % r["rule"]
+        what = "%s/lexer: rule %s: %s" % (pid, r["rule"], r["detail"])
+        if r["verdict"] == "ambiguous-confirmed":
+            k = match_known(known, pid, "lexer-work", label, "")
+            if k:
+                out.known.append(k["what"] + " [this run: " + r["detail"] + "]")
+            else:
+                out.violations.append((what, save_replay(pid, {"harness": "lexer-work", "inputs": [], "rule": r["rule"], "unit": r.get("w"), "timing_s": r.get("timing_s")})))
+        elif r["verdict"] == "ambiguous-unconfirmed":
+            out.unconfirmed.append(what)
+        elif r["verdict"] != "unambiguous":
+            out.inconclusive.append("lexer rule %s: %s (%s)" % (r["rule"], r["verdict"], r["detail"]))
+    out.coverage["lexer_work"] = {"recursive_lexer_rules": stats["recursive"], "lexer_rules": stats["rules"], "queries": stats["queries"], "solver_s": round(stats["solver_s"], 3),
+                                  "results": [{k: v for k, v in r.items() if k in ("rule", "verdict", "detail", "timing_s")} for r in results],
+                                  "method": "per recursive lexer rule of the serialized ATN: tail position of the self call (RegLan emptiness) and existence of a unit that is also two units (word equation + RegLan memberships, z3 5.1.0, no length bound); witness pumped through the real generated lexer (50/100/200 repetitions)",
+                                  "outside": "non-recursive lexer rules are matched by ANTLR's cached DFA (linear); ambiguities between more than two units and the parser's adaptive prediction are not analysed"}
 
 
 PARSER_STUB = ["lexer+parser are replaced by the grammar-conforming parse tree of the generated document, built from the real generated context classes (parser stub, DESIGN 5.3); the real walker, listener and error plumbing are executed; the contract 'the parser maps the text to this tree' is validated natively on the replayed witnesses (real ParseDSL on the text)",
